@@ -62,7 +62,31 @@ def compare():
     line = [l for l in p.stdout.splitlines() if l.startswith('RESULT')]
     real = json.loads(line[0][6:]) if line else {'error': (p.stdout + p.stderr)[-400:]}
     fake = run_fake()
-    return real == fake, real, fake
+    return real == fake or same_modulo_timing(real, fake), real, fake
+
+
+def same_modulo_timing(real, fake):
+    """The real run has wall-clock time-outs (send 30 ms, recv 120 ms): on a loaded machine a recv can time out after the publish, the sender then
+    publishes the same payload again under its next id and the consumer skips one.  What the fake claims about libzmq does not depend on that: the
+    consumer is handed sets with strictly increasing ids, each holding exactly the subscribed topics under their mapped names (never the hidden or the
+    nested one), every frame carrying its own topic's payload, all frames of a set the same payload, payloads in publishing order and never ahead of
+    the id; the ephemeral listener sees complete sets in order."""
+    try:
+        if 'error' in real or not real.get('eph_ok') or not fake.get('eph_ok'): return False
+        rs, want = real['sync'], {t: v['t'] for t, v in fake['sync'][0][1].items()}
+        if len(rs) != len(fake['sync']): return False
+        last_id, last_k = -1, -1
+        for mid, data in rs:
+            if not mid > last_id: return False
+            if {t: v['t'] for t, v in data.items()} != want: return False
+            ks = {v['k'] for v in data.values()}
+            if len(ks) != 1: return False
+            k = ks.pop()
+            if not (last_k < k <= mid): return False
+            last_id, last_k = mid, k
+        return True
+    except Exception:
+        return False
 
 
 if __name__ == '__main__':
